@@ -265,6 +265,11 @@ func genTemplateProgram(t *rapid.T, allowErr bool) *tplProg {
 			} else {
 				w("s%d := %s\n", b, lit(s))
 			}
+			if rapid.Bool().Draw(t, "tplCopyStr") {
+				// copy() of the shared string constant while another clone may
+				// be filling its rune cache
+				w("cs%[1]d := copy(s%[1]d)\ncl%[1]d := len(cs%[1]d)\n", b)
+			}
 			w("c%d := s%d[%d]\n", b, b, idx)
 			w("k%d := 0\nfor ch%d in s%d { k%d += int(ch%d) }\n", b, b, b, b, b)
 			w("d%d := [s%d[0], s%d[in0 %% 5], len(s%d)]\n", b, b, b, b)
